@@ -36,3 +36,12 @@ package diff
 //@ func (*diff.valueDiff).New
 //@   requires d != nil
 //@   ensures  result == d.new
+
+// An edit is only extended by the element that directly follows it in the same sequence.
+//@ func (*diff.differ).extend
+//@   requires diff != nil
+//@   callsite slice: assert contiguous: diff.edits[len(diff.edits) - 1].kind == kind && diff.edits[len(diff.edits) - 1].start + slen(diff.edits[len(diff.edits) - 1].values) == loc
+//@   modifies diff.edits, heap
+
+//@ func diff.slice
+//@   pure
